@@ -26,3 +26,21 @@ pub assume_specification<T, E, F: FnOnce(E) -> T + core::marker::Destruct> [core
     requires res is Err ==> op.requires((res->Err_0,)),
     ensures res is Ok ==> r == res->Ok_0,
             res is Err ==> op.ensures((res->Err_0,), r);
+
+// ---- std::io / std::fs types of the rolling logger (opaque) ----
+#[verifier::external_type_specification]
+#[verifier::external_body]
+pub struct ExFile(std::fs::File);
+#[verifier::external_type_specification]
+#[verifier::external_body]
+#[verifier::reject_recursive_types(W)]
+pub struct ExLineWriter<W: ?Sized + std::io::Write>(std::io::LineWriter<W>);
+#[verifier::external_type_specification]
+#[verifier::external_body]
+pub struct ExMetadata(std::fs::Metadata);
+#[verifier::external_body]
+pub broadcast proof fn axiom_fmt_i128() ensures #[trigger] vstd::std_specs::fmt::fmt_req_all::<i128>() {}
+#[verifier::external_trait_specification]
+pub trait ExIoWrite {
+    type ExternalTraitSpecificationFor: std::io::Write;
+}
